@@ -455,8 +455,14 @@ pub async fn run_one(cfg: &RouteCfg) -> Vec<Value> {
 }
 
 pub fn run_many<W: Write>(out: &mut W, count: u64, seed: u64, all_slots: bool) {
-    let rt = tokio::runtime::Builder::new_current_thread().enable_all().start_paused(true).build().expect("rt");
+    // a fresh runtime every few runs: the background tasks of finished runs (proxies, migrations, replicators) die with their
+    // runtime; with one runtime for hundreds of runs a thorough part grew to several GB and the OOM killer took it
+    let mk = || tokio::runtime::Builder::new_current_thread().enable_all().start_paused(true).build().expect("rt");
+    let mut rt = mk();
     for i in 0..count {
+        if i > 0 && i % 8 == 0 {
+            rt = mk();
+        }
         let s = seed.wrapping_mul(1_000_003).wrapping_add(i);
         let cfg = RouteCfg { seed: s, all_slots, compress: i % 2 == 1, limit: [1u64, 0, 2][(i % 3) as usize], v1: i % 4 == 3, conn_num: 1 + (i % 2) as usize, active: std::env::var("UVERIF_ACTIVE").is_ok() || i % 5 == 2 };
         let log = rt.block_on(run_one(&cfg));
